@@ -161,6 +161,11 @@ class UnitGen:
         for p in self.unit.prelude:
             path = os.path.join(VERIF, 'prelude', p)
             for k, l in enumerate(open(path).read().split('\n')):
+                m = re.match(r'\s*//@include (\S+)', l)
+                if m:
+                    for k2, l2 in enumerate(verus_view(open(os.path.join(VERIF, 'prelude', m.group(1))).read())):
+                        self.lines.append(Line(l2, kind='prelude', src=('prelude/' + m.group(1), k2 + 1)))
+                    continue
                 self.lines.append(Line(l, kind='prelude', src=('prelude/' + p, k + 1)))
         # module tree
         tree = {}
@@ -438,6 +443,18 @@ class UnitGen:
 
     def text(self):
         return '\n'.join(l.text for l in self.lines) + '\n'
+
+
+def verus_view(text):
+    """Shared plain-Rust/Verus text: `//@ ` lines are uncommented, lines ending in `//@-` are dropped."""
+    out = []
+    for l in text.split('\n'):
+        if l.rstrip().endswith('//@-'):
+            out.append('')
+            continue
+        m = re.match(r'(\s*)//@ ?(.*)$', l)
+        out.append(m.group(1) + m.group(2) if m else l)
+    return out
 
 
 def load_templates():
